@@ -4,14 +4,15 @@
     through WriteTL1; the helpers Json2ReadUnion / Json2ReadMaybe / Json2ReadString / Json2ReadInt32... are
     [jr_union_parts] / [jr_maybe_parts] / [jr_string_t] / [jr_prim].
 
-    Full statement wanted: for every tree j' reachable from jsonw v by the documented rewrites (generator
-    [jsonw_alt] of Json/JsonAltModel.v, all combinations), jsonr j' = jsonr (jsonw v).  Proved here: each rewrite
-    as an equation of the reader at the node where it applies, for ARBITRARY surrounding input (not only for what
-    the writer emits), and the rejection rules.  NOT proved: the closure under composition through the struct reader
-    for two rules -- an empty-valued member written explicitly / omitted, and an explicit mask member with implied
-    bits dropped; the correspondence run exercises exactly these compositions (jsonw_alt) against the Go reader. *)
+    Full statement: for every tree j' reachable from jsonw v by the documented rewrites, jsonr j' = jsonr (jsonw v).
+    The rewrites are the generator [jsonw_alt] of Json/JsonAltModel.v: every seed = some combination of them at
+    every node (number as decimal string, string as base64 object, empty-valued member written / omitted, explicit
+    mask member with implied bits dropped or omitted, members reordered, enum / union / Maybe forms, variant names).
+    Proved: [C06_alternative_forms] for all seeds, all types, all values (same side conditions as C05), including the
+    reordering of dictionary members ([rot] = true); plus each rewrite as an equation of the reader on ARBITRARY
+    input, and the rejection rules. *)
 From TLV Require Import Prim.PrimModel Tl1.Tl1Model Jprim.JprimModel
-  Json.JsonModel Json.JsonAltModel Json.JsonProofs Json.JsonRoundtrip Json.JsonAltProofs.
+  Json.JsonModel Json.JsonAltModel Json.JsonProofs Json.JsonRoundtrip Json.JsonAltProofs Json.JsonAltRt.
 From Coq Require Import Permutation.
 Open Scope N_scope.
 
@@ -61,6 +62,19 @@ Theorem C06_struct_member_order : forall fparse js f t ps tag fds tl2 fis ms ms'
   jsonr fparse js (S f) t ps (Some (JObj ms')) = jsonr fparse js (S f) t ps (Some (JObj ms)).
 Proof. exact alt_member_order_struct. Qed.
 Print Assumptions C06_struct_member_order.
+
+(** all combinations: whatever spelling the generator makes of a value (any seed), the reader returns the value --
+    the same as for the canonical spelling *)
+Theorem C06_alternative_forms : forall ffmt fparse js,
+  (forall is64 b, ffinite is64 b = true -> num_ok (ffmt is64 b) = true) ->
+  (forall is64 b, ffinite is64 b = true -> fparse is64 (ffmt is64 b) = Some b) ->
+  wf_jschema js = true ->
+  forall rot c t ps v j0 j fuel, (vdepth v < fuel)%nat ->
+    jsonw ffmt js t ps v = Some j0 -> jsonw_alt ffmt js rot c t ps v = Some j -> jdiag js t ps false v = [] ->
+    jsonr fparse js fuel t ps (Some j) = JOk v
+    /\ jsonr fparse js fuel t ps (Some j) = jsonr fparse js fuel t ps (Some j0).
+Proof. exact jsonw_alt_jsonr. Qed.
+Print Assumptions C06_alternative_forms.
 
 (** the canonical spelling itself is read back as the value (C05): the reference point of all of the above *)
 Theorem C06_canonical_form_read_back : forall ffmt fparse js,
@@ -155,6 +169,19 @@ Definition js_mask : jschema :=
     (TStruct 7 [mkField 0 true None []; mkField 1 true (Some (NField 0, 1)) []],
      AStruct false false [mkJF n_f1 false; mkJF n_f3 true]) ].
 Definition no_parse (_ : bool) (_ : bytes) : option N := None.
+Definition no_fmt (_ : bool) (_ : N) : bytes := [48].
+Definition v_mask : value := VStruct [Some (VNum 2); Some (VStruct [])].
+
+(** four seeds, four spellings of f1=2, f3 present: {"f3":true,"f1":"2"}  {"f3":true}  {"f1":"0","f3":true}  {"f1":2,"f3":true} *)
+Example ex_generator_spellings :
+  map (fun c => option_map jprint (jsonw_alt no_fmt js_mask true c 2 [] v_mask)) [0; 1; 2; 3]
+  = [Some [123; 34; 102; 51; 34; 58; 116; 114; 117; 101; 44; 34; 102; 49; 34; 58; 34; 50; 34; 125];
+     Some [123; 34; 102; 51; 34; 58; 116; 114; 117; 101; 125];
+     Some [123; 34; 102; 49; 34; 58; 34; 48; 34; 44; 34; 102; 51; 34; 58; 116; 114; 117; 101; 125];
+     Some [123; 34; 102; 49; 34; 58; 50; 44; 34; 102; 51; 34; 58; 116; 114; 117; 101; 125]]
+  /\ jsonw no_fmt js_mask 2 [] v_mask = jsonw_alt no_fmt js_mask true 3 2 [] v_mask
+  /\ jdiag js_mask 2 [] false v_mask = [].
+Proof. repeat split; vm_compute; reflexivity. Qed.
 
 Example ex_mask_forms :
   wf_jschema js_mask = true
